@@ -40,3 +40,11 @@ From KV Require Import StateGen StateBase StateExportProofs StateDocumentProofs.
 Theorem C07_state_as_modelled : state_export = modelled_state_export /\ state_document = modelled_state_document.
 Proof. exact (conj state_export_as_modelled state_document_as_modelled). Qed.
 Print Assumptions C07_state_as_modelled.
+
+(* partition: exporting the stage ranges between consecutive cut points (the measure starts of the index, which the
+   theorem above shows to be strictly increasing) and concatenating them gives exactly the rows of the whole range -
+   every data line once, in order, unmodified - for every document, option set and increasing list of cuts *)
+Theorem C07_segments_partition : forall d o last cuts c1 rest, cuts = c1 :: rest -> StronglySorted lt cuts ->
+  Forall (fun c => c <= last) cuts -> seg_rows d o cuts last = main_rows d o c1 (last - c1).
+Proof. exact segments_partition. Qed.
+Print Assumptions C07_segments_partition.
